@@ -107,6 +107,43 @@ func Index(a Object) (Int, error) {
 	return 0, ExceptionNewf(TypeError, "unsupported operand type(s) for index: '%s'", a.Type().Name)
 }
 
+// ResolveIndex runs the __index__ method of an index that is an instance
+// of a python class and returns its integer result; any other object is
+// returned as it is.
+//
+// __index__ is arbitrary code and may change the very sequence being
+// indexed, so a mutable sequence calls this before it looks at its own
+// length.
+func ResolveIndex(a Object) (Object, error) {
+	if _, native := a.(I__index__); native || a == None {
+		return a, nil
+	}
+	if slice, ok := a.(*Slice); ok {
+		out := &Slice{Start: slice.Start, Stop: slice.Stop, Step: slice.Step}
+		for _, p := range []*Object{&out.Start, &out.Stop, &out.Step} {
+			i, err := ResolveIndex(*p)
+			if err != nil {
+				return nil, err
+			}
+			*p = i
+		}
+		return out, nil
+	}
+	res, ok, err := TypeCall0(a, "__index__")
+	if !ok {
+		// not an index: the caller's usual path reports it
+		return a, nil
+	}
+	if err != nil {
+		return nil, err
+	}
+	switch res.(type) {
+	case Int, *BigInt:
+		return res, nil
+	}
+	return nil, ExceptionNewf(TypeError, "__index__ returned non-int: (type %s)", res.Type().Name)
+}
+
 // Index the python Object returning an int
 //
 // Will raise TypeError if Index can't be run on this object
